@@ -142,7 +142,9 @@ class World:
         self.sql_errors: List[Tuple[str, int, str]] = []     # (op line, errno, message) of MySQL errors that are not client errors
         self.server_errors: List[Tuple[str, str]] = []       # (op line, repr) of exceptions a handler would turn into HTTP 500
         res = self.db.tables['resources']
-        self.res_name = {r['deduped_resource_id']: r['resource'] for r in res}
+        self.res_name = {r['deduped_resource_id']: r['resource'] for r in res if r['resource_id'] == r['deduped_resource_id']}
+        # legacy versions of a resource (resource_id != deduped_resource_id): the workers of odd jobs report under the legacy name
+        self.res_legacy = {r['deduped_resource_id']: r['resource'] for r in res if r['resource_id'] != r['deduped_resource_id']}
 
     # -- plumbing ------------------------------------------------------------------------------------
     def _clock(self) -> float:
@@ -423,7 +425,10 @@ class World:
         rs = []
         for t in res:
             r, q = t.split(':')
-            rs.append({'name': self.res_name[int(r)], 'quantity': int(q)})
+            name = self.res_name[int(r)]
+            if int(r) in self.res_legacy and (int(b) + int(j)) % 2 == 1:
+                name = self.res_legacy[int(r)]
+            rs.append({'name': name, 'quantity': int(q)})
         await self.dj.add_attempt_resources(self.app, self.gdb, int(b), int(j), f'att{a}', rs)
         return 0
 
